@@ -23,7 +23,8 @@
    (prefixes, entities, whitespace, comments) is NOT modelled: implementation side only.
    Cryptography is ideal and external: the predicates [dig_ok] / [sig_ok] are parameters.
    Checks that do not concern signatures (status, time windows, audience, addressing,
-   valid_instance, assertion count: properties C04-C06) enter as the oracle bit [content_ok];
+   valid_instance: properties C04-C06) enter as the oracle bit [content_ok] (the assertion-count test of
+   parse_assertion is part of it too, and is restated as [count_ok] because the property depends on it);
    XML-schema validation (library xmlschema) enters as oracle bits per checked item. *)
 From Coq Require Import String List Bool Arith Ascii.
 From Verif Require Import Base.Str.
@@ -743,6 +744,14 @@ Section Crypto.
   Definition decrypted (ddoc : tree) : list tree :=
     flat_map (fun e => many ASSERTION e) (many ENCASSERTION ddoc).
 
+  (* parse_assertion, the "saml2int limitation" (context AuthnReq; self.assertion is still None there):
+       n_assertions != 1 and n_assertions_enc != 1  =>  InvalidAssertion
+     i.e. the Response goes on when it has exactly one plain Assertion child OR exactly one EncryptedAssertion
+     child (with or without ciphertext) - whatever the number of children of the other kind.  (Implied by
+     [content_ok]; restated here because the property depends on it: how many assertions feed one report.) *)
+  Definition count_ok (doc : tree) : bool :=
+    Nat.eqb (length (many ASSERTION doc)) 1 || Nat.eqb (length (many ENCASSERTION doc)) 1.
+
   (* The acceptance path.  doc = the Response as received; ddoc = the text against which the
      signatures of decrypted assertions are verified (str(response) after decrypt_keys), only
      consulted when find_encrypt_data holds.  Result: None = no identity. *)
@@ -750,6 +759,7 @@ Section Crypto.
     : option (reported * list dig) :=
     if negb (String.eqb (tag doc) RESPONSE) then None
     else if negb (content_ok o) then None
+    else if negb (count_ok doc) then None
     else
       match (match single SIGNATURE doc with
              | Some _ => match check_signature E K c doc doc R_NAME "" (schema_root o) with
